@@ -91,35 +91,121 @@ Proof.
   destruct (strncaseeq_head _ _ _ E3) as (b' & t' & E & Hb'). inversion E; subst. rewrite Hb in Hb'. vm_compute in Hb'. discriminate.
 Qed.
 
+(** ---------- the header flags of check_rfc822_headers() ---------- *)
+(** the names the specification uses are the ones regenerated from searchpattern[] *)
+Lemma hdr_patterns_ok : HDR_PATTERNS = [s_hdr_date; s_hdr_from; s_hdr_msgid].
+Proof. reflexivity. Qed.
+
+Definition hflags (seen : list bytes) : N :=
+  ((if field_present s_hdr_date seen then 1 else 0) + (if field_present s_hdr_from seen then 2 else 0)
+   + (if field_present s_hdr_msgid seen then 4 else 0))%N.
+
+Lemma field_present_app name a l : field_present name (a ++ [l]) = field_present name a || field_line name l.
+Proof. unfold field_present. rewrite existsb_app. simpl. now rewrite orb_false_r. Qed.
+
+(** the three names exclude each other (different first letters), so known_hdr says which one a line starts with *)
+Lemma known_hdr_cases l :
+  match known_hdr l with
+  | Some b => (b = 1%N /\ strncaseeq s_hdr_date l = true /\ strncaseeq s_hdr_from l = false /\ strncaseeq s_hdr_msgid l = false)
+              \/ (b = 2%N /\ strncaseeq s_hdr_date l = false /\ strncaseeq s_hdr_from l = true /\ strncaseeq s_hdr_msgid l = false)
+              \/ (b = 4%N /\ strncaseeq s_hdr_date l = false /\ strncaseeq s_hdr_from l = false /\ strncaseeq s_hdr_msgid l = true)
+  | None => strncaseeq s_hdr_date l = false /\ strncaseeq s_hdr_from l = false /\ strncaseeq s_hdr_msgid l = false
+  end.
+Proof.
+  unfold known_hdr. fold s_hdr_date s_hdr_from s_hdr_msgid.
+  assert (X : forall c1 r1 c2 r2, to_upper c1 <> to_upper c2 -> strncaseeq (c1 :: r1) l = true -> strncaseeq (c2 :: r2) l = false).
+  { intros c1 r1 c2 r2 Hne H1. destruct (strncaseeq (c2 :: r2) l) eqn:H2; [|reflexivity]. exfalso.
+    destruct (strncaseeq_head _ _ _ H1) as (b & t & E & Hb). destruct (strncaseeq_head _ _ _ H2) as (b' & t' & E' & Hb').
+    subst l. inversion E'; subst. congruence. }
+  assert (Y : forall p q : bytes, match p, q with c1 :: _, c2 :: _ => to_upper c1 <> to_upper c2 | _, _ => False end ->
+            strncaseeq p l = true -> strncaseeq q l = false).
+  { intros [|c1 r1] [|c2 r2] Hne; try contradiction. now apply X. }
+  destruct (strncaseeq s_hdr_date l) eqn:Ed.
+  { left. repeat split; (apply (Y s_hdr_date); [vm_compute; discriminate|exact Ed]). }
+  destruct (strncaseeq s_hdr_from l) eqn:Ef.
+  { right; left. repeat split. apply (Y s_hdr_from); [vm_compute; discriminate|exact Ef]. }
+  destruct (strncaseeq s_hdr_msgid l) eqn:Em.
+  { right; right. repeat split. }
+  repeat split.
+Qed.
+
+(** a line that starts with a dot is not looked at *)
+Lemma hflags_dot seen l : dot_line l = true -> hflags (seen ++ [l]) = hflags seen.
+Proof. intros Hd. unfold hflags. rewrite !field_present_app. unfold field_line. rewrite Hd. cbn [negb andb]. now rewrite !orb_false_r. Qed.
+
+(** one line through check_rfc822_headers(): the flags stay the flags of the lines seen *)
+Lemma hdr_check_flags dc hf l hf' flagr seen : (d_chk dc || d_subm dc = true -> hf = hflags seen) -> dot_line l = false ->
+  hdr_check dc hf l = Some (hf', flagr) ->
+  (d_chk dc || d_subm dc = true -> hf' = hflags (seen ++ [l])).
+Proof.
+  intros Hhf Hd H Hon. unfold hdr_check in H. rewrite Hon in H. cbn [negb] in H. specialize (Hhf Hon). subst hf.
+  destruct (has8 l); [discriminate|].
+  pose proof (known_hdr_cases l) as Hk.
+  unfold hflags in *. rewrite !field_present_app. unfold field_line. rewrite Hd. cbn [negb andb].
+  destruct (known_hdr l) as [bit|].
+  - destruct Hk as [(-> & -> & -> & ->)|[(-> & -> & -> & ->)|(-> & -> & -> & ->)]];
+      destruct (field_present s_hdr_date seen), (field_present s_hdr_from seen), (field_present s_hdr_msgid seen);
+      cbn in H; try discriminate; inversion H; subst; reflexivity.
+  - destruct Hk as (-> & -> & ->). inversion H; subst. now rewrite !orb_false_r.
+Qed.
+
+(** the fields written for the flags of the header are the ones the specification names *)
+Lemma subm_additions_fields dc hdr : subm_additions dc (hflags hdr) = subm_fields (par_of dc) hdr.
+Proof.
+  unfold subm_additions, subm_fields, hflags, par_of. cbn [sp_date sp_from sp_stamp sp_host].
+  destruct (field_present s_hdr_date hdr), (field_present s_hdr_from hdr), (field_present s_hdr_msgid hdr); reflexivity.
+Qed.
+
+Lemma hdr_body_part ls : hdr_part ls ++ body_part ls = ls.
+Proof.
+  unfold body_part. induction ls as [|l r IH]; [reflexivity|]. destruct l as [|b t]; [reflexivity|].
+  cbn [hdr_part length skipn app]. now rewrite IH.
+Qed.
+
+(** outside submission mode nothing is added *)
+Lemma queued_off p lines : sp_on p = false -> queued p lines = stored lines.
+Proof. intros E. unfold queued. rewrite E. cbn [app]. now rewrite <- stored_app, hdr_body_part. Qed.
+
+Lemma hdr_part_split (hdr rest : list bytes) : Forall (fun x : bytes => x <> []) hdr -> (rest = [] \/ exists bs, rest = [] :: bs) ->
+  hdr_part (hdr ++ rest) = hdr /\ body_part (hdr ++ rest) = rest.
+Proof.
+  intros Hne Hr.
+  assert (E : hdr_part (hdr ++ rest) = hdr).
+  { destruct Hr as [->|(bs & ->)]; [rewrite app_nil_r; now apply hdr_part_all|].
+    replace (hdr ++ [] :: bs) with ((hdr ++ [([] : bytes)]) ++ bs) by (now rewrite <- app_assoc). now apply hdr_part_sep. }
+  split; [exact E|]. unfold body_part. rewrite E. rewrite skipn_app, skipn_all, Nat.sub_diag. reflexivity.
+Qed.
+
 Section Data.
 Variable o : oracles.
 Variable dc : dcfg.
 Variable trace : bytes.
 Variable T0 : bytes.                          (* the unread input when DATA started reading *)
 
-(** invariant: [l] is in linein, not yet written *)
-Definition I (seen : list bytes) (msg : bytes) (sz : N) (r : rstate) (l : bytes) : Prop :=
-  msg = trace ++ stored seen /\ sz = szof seen /\ T0 = wire seen ++ l ++ [CR; LF] ++ total r
-  /\ rstate_ok r /\ Forall data_line seen /\ no_crlf l.
+(** invariant: [l] is in linein, not yet written; [base ++ seen] are the data lines consumed so far, and the message
+    written is [pfx] followed by the stored form of [seen] *)
+Definition I (pfx : bytes) (base seen : list bytes) (msg : bytes) (sz : N) (r : rstate) (l : bytes) : Prop :=
+  msg = pfx ++ stored seen /\ sz = szof (base ++ seen) /\ T0 = wire (base ++ seen) ++ l ++ [CR; LF] ++ total r
+  /\ rstate_ok r /\ Forall data_line (base ++ seen) /\ no_crlf l.
 
 (** what each final result says *)
-Definition post (d : dend) (r' : rstate) : Prop :=
+Definition post (pfx : bytes) (base : list bytes) (d : dend) (r' : rstate) : Prop :=
   match d with
-  | D_eod msg sz seen =>
-      msg = trace ++ stored seen /\ sz = szof seen /\ (sz <= maxbytes o)%N
-      /\ T0 = wire seen ++ [DOT; CR; LF] ++ total r' /\ Forall data_line seen
-  | D_toobig l seen =>
-      (maxbytes o < szof seen)%N /\ T0 = wire seen ++ l ++ [CR; LF] ++ total r' /\ Forall data_line seen
+  | D_eod msg sz all =>
+      exists seen, all = base ++ seen /\ msg = pfx ++ stored seen /\ sz = szof all /\ (sz <= maxbytes o)%N
+      /\ T0 = wire all ++ [DOT; CR; LF] ++ total r' /\ Forall data_line all
+  | D_toobig l all =>
+      (maxbytes o < szof all)%N /\ T0 = wire all ++ l ++ [CR; LF] ++ total r' /\ Forall data_line all
   | _ => True
   end.
 
-Lemma I_step seen msg sz r l l' r' : I seen msg sz r l -> is_dot l = false ->
+Lemma I_step pfx base seen msg sz r l l' r' : I pfx base seen msg sz r l -> is_dot l = false ->
   dread r l = (inr l', r') ->
-  I (seen ++ [l]) (msg ++ unstuff l ++ [LF]) (sz + N.of_nat (length (unstuff l)) + 2)%N r' l'.
+  I pfx base (seen ++ [l]) (msg ++ unstuff l ++ [LF]) (sz + N.of_nat (length (unstuff l)) + 2)%N r' l'.
 Proof.
   intros (Hm & Hs & Ht & Hok & Hall & Hcl) Hnd Hd.
   destruct (dread_line _ _ _ _ Hok Hd) as (Htot & Hc' & Hok').
-  unfold I. rewrite stored_app, szof_app, wire_app. unfold stored at 2, wire at 2. simpl.
+  unfold I. rewrite (app_assoc base seen [l]). rewrite stored_app, szof_app, wire_app. unfold stored at 2, wire at 2. simpl.
   rewrite !app_nil_r. repeat split; auto.
   - rewrite Hm. now rewrite <- !app_assoc.
   - rewrite Hs. lia.
@@ -127,18 +213,25 @@ Proof.
   - apply Forall_app. split; [exact Hall|]. constructor; [split; assumption|constructor].
 Qed.
 
-Lemma dfinal_post l msg sz seen r : I seen msg sz r l ->
-  (is_dot l = true \/ (maxbytes o < sz)%N) -> post (dfinal o l msg sz seen) r.
+(** the same situation seen from a later starting point: everything so far is the base, the message so far the prefix *)
+Lemma I_rebase pfx seen msg sz r l : I pfx [] seen msg sz r l -> forall m, I m seen [] m sz r l.
+Proof.
+  intros (Hm & Hs & Ht & Hok & Hall & Hcl) m. unfold I. cbn [app] in *. rewrite !app_nil_r.
+  repeat split; auto.
+Qed.
+
+Lemma dfinal_post pfx base seen msg sz r l : I pfx base seen msg sz r l ->
+  (is_dot l = true \/ (maxbytes o < sz)%N) -> post pfx base (dfinal o l msg sz (base ++ seen)) r.
 Proof.
   intros (Hm & Hs & Ht & Hok & Hall & Hcl) Hwhy. unfold dfinal.
   destruct (N.ltb (maxbytes o) sz) eqn:E.
   - apply N.ltb_lt in E. cbn [post]. rewrite <- Hs. auto.
   - apply N.ltb_ge in E. destruct Hwhy as [Hd|Hb]; [|exfalso; lia].
-    apply is_dot_true in Hd. subst l. cbn [post]. rewrite <- Hs. repeat split; auto.
+    apply is_dot_true in Hd. subst l. cbn [post]. exists seen. rewrite <- Hs. repeat split; auto.
 Qed.
 
-Lemma body_loop_post fuel : forall r l msg sz seen d r',
-  I seen msg sz r l -> body_loop fuel o dc r l msg sz seen = (d, r') -> post d r'.
+Lemma body_loop_post pfx base fuel : forall r l msg sz seen d r',
+  I pfx base seen msg sz r l -> body_loop fuel o dc r l msg sz (base ++ seen) = (d, r') -> post pfx base d r'.
 Proof.
   induction fuel as [|f IH]; intros r l msg sz seen d r' HI H; cbn [body_loop] in H.
   { inversion H; subst. exact Logic.I. }
@@ -150,75 +243,118 @@ Proof.
   destruct (d_wfail dc); [inversion H; subst; exact Logic.I|].
   destruct (dread r l) as [[d0|l'] r1] eqn:Ed.
   - inversion H; subst. destruct d; try exact Logic.I; unfold dread in Ed; destruct (net_read r) as [it rr]; destruct it; inversion Ed.
-  - apply (IH _ _ _ _ _ _ _ (I_step _ _ _ _ _ _ _ HI End Ed) H).
+  - rewrite <- app_assoc in H. apply (IH _ _ _ _ _ _ _ (I_step _ _ _ _ _ _ _ _ _ HI End Ed) H).
 Qed.
 
-(** header loop: additionally the hop counter is the number of Received: header lines seen *)
-Lemma hdr_loop_post fuel : forall r l msg sz hops hf seen d r',
-  I seen msg sz r l -> hops = count_rcv seen -> hops <= MAXHOPS -> Forall (fun x => x <> []) seen ->
-  hdr_loop fuel o dc r l msg sz hops hf seen = (d, r') ->
-  post d r'
-  /\ match d with
-     | D_loop l' seen' => count_rcv (seen' ++ [l']) = S MAXHOPS /\ Forall (fun x => x <> []) (seen' ++ [l'])
-     | D_eod _ _ seen' => count_rcv (hdr_part seen') <= MAXHOPS
-     | _ => True
-     end.
+Lemma body_loop_post' pfx base fuel r l msg sz seen all d r' : all = base ++ seen ->
+  I pfx base seen msg sz r l -> body_loop fuel o dc r l msg sz all = (d, r') -> post pfx base d r'.
+Proof. intros ->. apply body_loop_post. Qed.
+
+(** the body loop never reports a mail loop *)
+Lemma body_loop_noloop fuel : forall r l msg sz sn d r', body_loop fuel o dc r l msg sz sn = (d, r') ->
+  match d with D_loop _ _ => False | _ => True end.
 Proof.
-  induction fuel as [|f IH]; intros r l msg sz hops hf seen d r' HI Hh Hle Hne H; cbn [hdr_loop] in H.
-  { inversion H; subst. split; exact Logic.I. }
-  pose proof (hdr_part_all seen Hne) as Hhp.
+  induction fuel as [|f IH]; intros r l msg sz sn d r' H; cbn [body_loop] in H; [inversion H; exact Logic.I|].
+  destruct (is_dot l || N.ltb (maxbytes o) sz).
+  - inversion H; subst. unfold dfinal. destruct (N.ltb (maxbytes o) sz); exact Logic.I.
+  - destruct (d_chk dc && negb (d_dt dc) && has8 l); [inversion H; subst; exact Logic.I|].
+    destruct (d_wfail dc); [inversion H; subst; exact Logic.I|].
+    destruct (dread r l) as [[d0|l'] r1] eqn:Ed.
+    + inversion H; subst. apply dread_inl in Ed. destruct d; try exact Logic.I; contradiction.
+    + apply IH in H. exact H.
+Qed.
+
+(** header loop: the hop counter is the number of Received: header lines seen, the header flags are those of the
+    lines seen (when the checks run at all); at the end of the header block the fields missing by these flags are added
+    in submission mode *)
+Definition hpost (d : dend) (r' : rstate) : Prop :=
+  match d with
+  | D_eod msg sz all =>
+      exists hdr rest, all = hdr ++ rest /\ Forall (fun x : bytes => x <> []) hdr /\ (rest = [] \/ exists bs, rest = [] :: bs)
+        /\ msg = trace ++ stored hdr ++ (if d_subm dc then subm_fields (par_of dc) hdr else []) ++ stored rest
+        /\ sz = szof all /\ (sz <= maxbytes o)%N
+        /\ T0 = wire all ++ [DOT; CR; LF] ++ total r' /\ Forall data_line all
+        /\ count_rcv hdr <= MAXHOPS
+  | D_toobig l all =>
+      (maxbytes o < szof all)%N /\ T0 = wire all ++ l ++ [CR; LF] ++ total r' /\ Forall data_line all
+  | D_loop l' seen' => count_rcv (seen' ++ [l']) = S MAXHOPS /\ Forall (fun x : bytes => x <> []) (seen' ++ [l'])
+  | _ => True
+  end.
+
+Lemma hdr_loop_post fuel : forall r l msg sz hops hf seen d r',
+  I trace [] seen msg sz r l -> hops = count_rcv seen -> hops <= MAXHOPS -> Forall (fun x : bytes => x <> []) seen ->
+  (d_chk dc || d_subm dc = true -> hf = hflags seen) ->
+  hdr_loop fuel o dc r l msg sz hops hf seen = (d, r') -> hpost d r'.
+Proof.
+  induction fuel as [|f IH]; intros r l msg sz hops hf seen d r' HI Hh Hle Hne Hhf H; cbn [hdr_loop] in H.
+  { inversion H; subst. exact Logic.I. }
   destruct (is_dot l || N.ltb (maxbytes o) sz || Nat.eqb (length l) 0 || Nat.ltb MAXHOPS hops) eqn:Ex.
-  - destruct (d_chk dc && (N.eqb (N.land hf 1) 0 || N.eqb (N.land hf 2) 0)); [inversion H; subst; split; exact Logic.I|].
+  - (* the end of the header block *)
+    set (add := if d_subm dc then subm_additions dc hf else []) in H.
+    assert (Hadd : add = if d_subm dc then subm_fields (par_of dc) seen else []).
+    { unfold add. destruct (d_subm dc) eqn:Es; [|reflexivity]. rewrite Hhf by (rewrite ?Es; apply orb_true_r). apply subm_additions_fields. }
+    destruct (d_subm dc && d_wfail dc && negb (Nat.eqb (length add) 0)); [inversion H; subst; exact Logic.I|].
+    destruct (negb (d_subm dc) && d_chk dc && (N.eqb (N.land hf 1) 0 || N.eqb (N.land hf 2) 0)); [inversion H; subst; exact Logic.I|].
     destruct l as [|b t].
     + (* empty line: body follows *)
-      destruct (d_wfail dc); [inversion H; subst; split; exact Logic.I|].
+      destruct (d_wfail dc); [inversion H; subst; exact Logic.I|].
       destruct (dread r []) as [[d0|l'] r1] eqn:Ed.
-      * inversion H; subst. split; [|]; destruct d; try exact Logic.I; unfold dread in Ed; destruct (net_read r) as [it rr]; destruct it; inversion Ed.
-      * assert (HI' : I (seen ++ [[]]) (msg ++ [LF]) (sz + 2)%N r1 l').
-        { pose proof (I_step _ _ _ _ _ _ _ HI eq_refl Ed) as X. simpl in X.
-          replace (sz + 0 + 2)%N with (sz + 2)%N in X by lia. exact X. }
-        pose proof (body_loop_post _ _ _ _ _ _ _ _ HI' H) as Hp. split; [exact Hp|].
-        (* the header part of what the body loop returns is [seen]; the body loop never reports a mail loop *)
-        assert (Hpre : forall fuel r l msg sz sn d r', body_loop fuel o dc r l msg sz sn = (d, r') ->
-                  match d with D_eod _ _ s' => exists t, s' = sn ++ t | D_loop _ _ => False | _ => True end).
-        { clear. induction fuel as [|f IH]; intros r l msg sz sn d r' H; cbn [body_loop] in H; [inversion H; exact Logic.I|].
-          destruct (is_dot l || N.ltb (maxbytes o) sz).
-          - inversion H; subst. unfold dfinal. destruct (N.ltb (maxbytes o) sz); [exact Logic.I|]. exists []. now rewrite app_nil_r.
-          - destruct (d_chk dc && negb (d_dt dc) && has8 l); [inversion H; subst; exact Logic.I|].
-            destruct (d_wfail dc); [inversion H; subst; exact Logic.I|].
-            destruct (dread r l) as [[d0|l'] r1] eqn:Ed.
-            + inversion H; subst. apply dread_inl in Ed. destruct d; try exact Logic.I; contradiction.
-            + apply IH in H. destruct d; try exact Logic.I; try contradiction. destruct H as (t & ->). exists (l :: t). now rewrite <- app_assoc. }
-        apply Hpre in H. destruct d; try exact Logic.I; try contradiction. destruct H as (t & ->).
-        rewrite (hdr_part_sep seen t Hne). lia.
-    + inversion H; subst. split.
-      * apply dfinal_post; [exact HI|].
-        apply orb_true_iff in Ex as [Ex|Ex]; [|apply Nat.ltb_lt in Ex; lia].
+      * inversion H; subst. destruct d; try exact Logic.I; unfold dread in Ed; destruct (net_read r) as [it rr]; destruct it; inversion Ed.
+      * pose proof (I_step _ _ _ _ _ _ _ _ _ HI eq_refl Ed) as X. simpl in X.
+        replace (sz + 0 + 2)%N with (sz + 2)%N in X by lia.
+        pose proof (I_rebase _ _ _ _ _ _ X ((msg ++ add) ++ [LF])) as HI'.
+        pose proof (body_loop_noloop _ _ _ _ _ _ _ _ H) as Hnl.
+        pose proof (body_loop_post' _ _ _ _ _ _ _ _ _ _ _ (eq_sym (app_nil_r _)) HI' H) as Hp.
+        destruct d; try exact Logic.I; try contradiction.
+        -- cbn [post] in Hp. destruct Hp as (bs & Eall & Em & Es & Hmax & Ht & Hall).
+           cbn [hpost]. exists seen, ([] :: bs).
+           destruct HI as (Hm0 & _).
+           split; [rewrite Eall; now rewrite <- app_assoc|]. split; [exact Hne|]. split; [right; eauto|].
+           split. { rewrite Em, Hm0, Hadd. unfold stored at 3. cbn [map concat unstuff app]. fold (stored bs).
+                    now rewrite <- !app_assoc. }
+           split; [exact Es|]. split; [exact Hmax|]. split; [exact Ht|]. split; [exact Hall|]. lia.
+        -- exact Hp.
+    + (* the lone dot, or over the size limit *)
+      inversion H; subst d r'. clear H.
+      assert (Hwhy : is_dot (b :: t) = true \/ (maxbytes o < sz)%N).
+      { apply orb_true_iff in Ex as [Ex|Ex]; [|apply Nat.ltb_lt in Ex; lia].
         apply orb_true_iff in Ex as [Ex|Ex]; [|simpl in Ex; discriminate].
-        apply orb_true_iff in Ex as [E|E]; [left; exact E|right; now apply N.ltb_lt].
-      * unfold dfinal. destruct (N.ltb (maxbytes o) sz); [exact Logic.I|]. rewrite Hhp. lia.
+        apply orb_true_iff in Ex as [E|E]; [left; exact E|right; now apply N.ltb_lt]. }
+      destruct HI as (Hm & Hs & Ht & Hok & Hall & Hcl). cbn [app] in Hs, Ht, Hall.
+      unfold dfinal. destruct (N.ltb (maxbytes o) sz) eqn:E.
+      * apply N.ltb_lt in E. cbn [hpost]. rewrite <- Hs. auto.
+      * apply N.ltb_ge in E. destruct Hwhy as [Hd|Hb]; [|exfalso; lia].
+        apply is_dot_true in Hd. inversion Hd; subst b t. cbn [hpost]. exists seen, [].
+        split; [now rewrite app_nil_r|]. split; [exact Hne|]. split; [left; reflexivity|].
+        split. { rewrite Hm, Hadd. unfold stored at 3. cbn [map concat]. now rewrite !app_nil_r, <- app_assoc. }
+        split; [exact Hs|]. split; [exact E|]. split; [exact Ht|]. split; [exact Hall|]. lia.
   - apply orb_false_iff in Ex as [Ex _]. apply orb_false_iff in Ex as [Ex Elen]. apply orb_false_iff in Ex as [End _].
     assert (Hlne : l <> []) by (destruct l; [discriminate|congruence]).
     destruct (if N.eqb (nth 0 l 0%N) DOT then Some (hf, false) else hdr_check dc hf l) as [[hf' flagr]|] eqn:Ehc.
-    2:{ inversion H; subst. split; exact Logic.I. }
+    2:{ inversion H; subst. exact Logic.I. }
     (* the counting condition of the code is the one of the specification *)
     assert (Hrcv : negb (N.eqb (nth 0 l 0%N) DOT) && flagr && is_received l = rcv_line l).
     { unfold rcv_line. destruct (N.eqb (nth 0 l 0%N) DOT) eqn:Ed; [reflexivity|]. cbn [negb andb].
       destruct flagr; [reflexivity|]. symmetry. cbn [andb].
-      unfold hdr_check in Ehc. destruct (negb (d_chk dc)); [inversion Ehc|]. destruct (has8 l); [discriminate|].
+      unfold hdr_check in Ehc. destruct (negb (d_chk dc || d_subm dc)); [inversion Ehc|]. destruct (has8 l); [discriminate|].
       destruct (known_hdr l) as [bit|] eqn:Ek; [|inversion Ehc]. now apply (known_not_received l bit). }
+    (* the flags follow the lines *)
+    assert (Hhf' : d_chk dc || d_subm dc = true -> hf' = hflags (seen ++ [l])).
+    { destruct (N.eqb (nth 0 l 0%N) DOT) eqn:Ed.
+      - inversion Ehc; subst. intros Hon. rewrite (hflags_dot seen l Ed). now apply Hhf.
+      - apply (hdr_check_flags dc hf l hf' flagr seen Hhf Ed Ehc). }
     rewrite Hrcv in H.
     destruct (rcv_line l && Nat.ltb MAXHOPS (if rcv_line l then S hops else hops)) eqn:Eloop.
-    + inversion H; subst. split; [exact Logic.I|].
+    + inversion H; subst. cbn [hpost].
       apply andb_true_iff in Eloop as [Er El]. rewrite Er in El. apply Nat.ltb_lt in El.
       split.
       * rewrite count_rcv_app. unfold count_rcv at 2. simpl. rewrite Er. simpl. lia.
       * apply Forall_app. split; [exact Hne|]. constructor; [exact Hlne|constructor].
-    + match type of H with context [if ?c then (D_reject 554 l, r) else _] => destruct c end; [inversion H; subst; split; exact Logic.I|].
-      destruct (d_wfail dc); [inversion H; subst; split; exact Logic.I|].
+    + match type of H with context [if ?c then (D_reject 554 l, r) else _] => destruct c end; [inversion H; subst; exact Logic.I|].
+      destruct (d_wfail dc); [inversion H; subst; exact Logic.I|].
       destruct (dread r l) as [[d0|l'] r1] eqn:Ed.
-      * inversion H; subst. split; destruct d; try exact Logic.I; unfold dread in Ed; destruct (net_read r) as [it rr]; destruct it; inversion Ed.
-      * apply (IH _ _ _ _ _ _ _ _ _ (I_step _ _ _ _ _ _ _ HI End Ed)) in H; [exact H| | |].
+      * inversion H; subst. destruct d; try exact Logic.I; unfold dread in Ed; destruct (net_read r) as [it rr]; destruct it; inversion Ed.
+      * apply (IH _ _ _ _ _ _ _ _ _ (I_step _ _ _ _ _ _ _ _ _ HI End Ed)) in H; [exact H| | | |exact Hhf'].
         -- rewrite count_rcv_app. unfold count_rcv at 2. simpl. destruct (rcv_line l); simpl; lia.
         -- destruct (rcv_line l) eqn:Er; [|lia]. simpl in Eloop. apply Nat.ltb_ge in Eloop. lia.
         -- apply Forall_app. split; [exact Hne|]. constructor; [exact Hlne|constructor].
@@ -230,10 +366,11 @@ End Data.
 Theorem data_loop_spec fuel o dc r trace d r' : rstate_ok r -> data_loop fuel o dc r trace = (d, r') ->
   match d with
   | D_eod msg sz seen =>
-      (* the message is the trace header followed by exactly the client's data lines, in order, CRLF -> LF, leading dot removed *)
-      msg = trace ++ stored seen
+      (* the message is the trace header followed by exactly the client's data lines, in order, CRLF -> LF, leading dot
+         removed - in submission mode with exactly the missing ones of Date, From, Message-Id behind the last header line *)
+      msg = trace ++ queued (par_of dc) seen
       /\ total r = wire seen ++ [DOT; CR; LF] ++ total r' /\ Forall data_line seen
-      (* size: what is stored never exceeds the counter, which is within the limit *)
+      (* size: what is stored of the client's lines never exceeds the counter, which is within the limit *)
       /\ sz = szof seen /\ (N.of_nat (length (stored seen)) <= sz <= maxbytes o)%N
       (* hops: at most MAXHOPS Received: lines in the header *)
       /\ count_rcv (hdr_part seen) <= MAXHOPS
@@ -251,16 +388,18 @@ Proof.
   destruct (dread r []) as [[d0|l] r1] eqn:Ed.
   { inversion H; subst. unfold dread in Ed. destruct (net_read r) as [it rr]. destruct it; inversion Ed; exact Logic.I. }
   destruct (dread_line _ _ _ _ Hok Ed) as (Htot & Hcl & Hok1).
-  assert (HI : I trace (total r) [] trace 0%N r1 l).
+  assert (HI : I (total r) trace [] [] trace 0%N r1 l).
   { unfold I, stored, wire. simpl. rewrite app_nil_r. repeat split; auto. }
   assert (HM : 0 <= MAXHOPS) by lia.
-  destruct (hdr_loop_post o dc trace (total r) fuel _ _ _ _ _ _ _ _ _ HI eq_refl HM (Forall_nil _) H) as (Hp & Hh).
+  pose proof (hdr_loop_post o dc trace (total r) fuel _ _ _ _ _ _ _ _ _ HI eq_refl HM (Forall_nil _) (fun _ => eq_refl) H) as Hp.
   destruct d; try exact Logic.I.
-  - cbn [post] in Hp. destruct Hp as (Hm & Hs & Hle & Ht & Hall).
-    split; [exact Hm|]. split; [exact Ht|]. split; [exact Hall|]. split; [exact Hs|]. split; [|exact Hh].
+  - cbn [hpost] in Hp. destruct Hp as (hdr & rest & Eall & Hne & Hrest & Hm & Hs & Hle & Ht & Hall & Hh).
+    destruct (hdr_part_split hdr rest Hne Hrest) as (Ehp & Ebp). rewrite <- Eall in Ehp, Ebp.
+    split. { rewrite Hm. unfold queued. rewrite Ehp, Ebp. reflexivity. }
+    split; [exact Ht|]. split; [exact Hall|]. split; [exact Hs|]. split; [|rewrite Ehp; exact Hh].
     split; [rewrite Hs; apply stored_le_szof|exact Hle].
-  - cbn [post] in Hp. destruct Hp as (Hb & Ht & Hall). split; [|exact Ht]. split; [exact Hb|apply szof_le_wire].
-  - exact Hh.
+  - cbn [hpost] in Hp. destruct Hp as (Hb & Ht & Hall). split; [|exact Ht]. split; [exact Hb|apply szof_le_wire].
+  - exact Hp.
 Qed.
 
 (** the verdict checker of Spec/SessionSpec.v accepts what the model does, for every reader state and stream:
@@ -282,12 +421,39 @@ Proof.
     apply N.ltb_lt. rewrite szof_app. lia.
 Qed.
 
-Theorem handoff_msg_sound fuel o dc r trace msg sz seen r' :
-  rstate_ok r -> data_loop fuel o dc r trace = (D_eod msg sz seen, r') -> handoff_msg_ok seen msg = true.
+(** ---------- the property as stated (presence judged on the stored lines) ---------- *)
+Lemma unstuff_nodot l : dot_line l = false -> unstuff l = l.
 Proof.
-  intros Hok H. pose proof (data_loop_spec fuel o dc r trace _ r' Hok H) as S. cbn in S.
-  destruct S as (Hm & _). unfold handoff_msg_ok. rewrite Hm, app_length.
+  unfold dot_line, unstuff. destruct l as [|b t]; [reflexivity|]. cbn [nth]. intros H.
+  destruct b as [|p]; [reflexivity|]. do 6 (destruct p as [p|p|]; try reflexivity). discriminate.
+Qed.
+
+Lemma field_stored_present name hdr : (name = s_hdr_date \/ name = s_hdr_from \/ name = s_hdr_msgid) ->
+  hidden_field hdr = false -> field_stored name hdr = field_present name hdr.
+Proof.
+  intros Hn. unfold hidden_field, field_stored, field_present. induction hdr as [|l t IH]; [reflexivity|].
+  cbn [existsb]. intros H. apply orb_false_iff in H as [Hl Ht]. rewrite (IH Ht). f_equal.
+  unfold hidden_line in Hl. unfold field_line. destruct (dot_line l) eqn:Ed; cbn [negb andb] in *.
+  - apply orb_false_iff in Hl as [Hl H3]. apply orb_false_iff in Hl as [H1 H2].
+    destruct Hn as [->|[->| ->]]; assumption.
+  - now rewrite (unstuff_nodot l Ed).
+Qed.
+
+Lemma queued_full_eq p lines : sp_on p = false \/ hidden_field (hdr_part lines) = false -> queued_full p lines = queued p lines.
+Proof.
+  unfold queued_full, queued. intros [E|E]; [rewrite E; reflexivity|].
+  unfold subm_fields_full, subm_fields.
+  rewrite (field_stored_present s_hdr_date _ (or_introl eq_refl) E), (field_stored_present s_hdr_from _ (or_intror (or_introl eq_refl)) E),
+    (field_stored_present s_hdr_msgid _ (or_intror (or_intror eq_refl)) E). reflexivity.
+Qed.
+
+Theorem handoff_msg_sound fuel o dc r trace msg sz seen r' :
+  rstate_ok r -> data_loop fuel o dc r trace = (D_eod msg sz seen, r') ->
+  d_subm dc = false \/ hidden_field (hdr_part seen) = false -> handoff_msg_ok (par_of dc) seen msg = true.
+Proof.
+  intros Hok H Hcls. pose proof (data_loop_spec fuel o dc r trace _ r' Hok H) as S. cbn in S.
+  destruct S as (Hm & _). unfold handoff_msg_ok. rewrite (queued_full_eq (par_of dc) seen Hcls). rewrite Hm, app_length.
   apply andb_true_intro. split; [apply Nat.leb_le; lia|].
-  replace (length trace + length (stored seen) - length (stored seen)) with (length trace) by lia.
+  replace (length trace + length (queued (par_of dc) seen) - length (queued (par_of dc) seen)) with (length trace) by lia.
   rewrite skipn_app, skipn_all, Nat.sub_diag. cbn [skipn app]. apply bytes_eqb_eq. reflexivity.
 Qed.
